@@ -25,7 +25,7 @@ use crate::zf;
 use qvlib::wire;
 use qvlib::{hex, json, panic_key, unhex, Ctx, Local, Value};
 
-pub const RULE: &str = "all octet strings <= n over 16 syntax octets; all token sequences <= d over a 32-token zone-file menu (space-joined and glued; bare and after a context prefix); every truncation / 1-octet deletion / insertion / replacement of pretty-printed valid files; size-limit inputs; 56 kB valid files of lookahead-heavy lines delivered in short reads (burst around the buffer size then 1-3 octet pieces, alternating, uniform); all single-nibble mutations of generic RDATA of every supported type. Oracle: no panic, termination (watchdog, <= len+2 items), nothing after the first Err, every yielded record has a valid absolute owner, type not in {NULL,OPT,TSIG}, RDATA valid per an independent per-type validator";
+pub const RULE: &str = "all octet strings <= n over 16 syntax octets; all token sequences <= d over a 32-token zone-file menu (space-joined and glued; bare and after a context prefix); every truncation / 1-octet deletion / insertion / replacement of pretty-printed valid files; size-limit inputs; valid files read from a stream whose k-th read fails once (every k, 7 error kinds, 4 piece sizes); 56 kB valid files of lookahead-heavy lines delivered in short reads (burst around the buffer size then 1-3 octet pieces, alternating, uniform); all single-nibble mutations of generic RDATA of every supported type. Oracle: no panic, termination (watchdog, <= len+2 items), nothing after the first Err, every yielded record has a valid absolute owner, type not in {NULL,OPT,TSIG}, RDATA valid per an independent per-type validator";
 
 const ALPHABET: &[u8] = b"a0.@ \t\n\r();\"\\#$\xff";
 const MUT_ALPHABET: &[u8] = b"a0.@ \t\n\r();\"\\#$\xff14fT";
@@ -284,6 +284,32 @@ fn trickle_one(l: &mut Local, name: &str, input: &[u8], sname: &str, pieces: &[u
     bad
 }
 
+/// I/O error kinds injected by the io-error family.
+const IO_KINDS: [(&str, std::io::ErrorKind); 7] = [
+    ("Other", std::io::ErrorKind::Other),
+    ("Interrupted", std::io::ErrorKind::Interrupted),
+    ("WouldBlock", std::io::ErrorKind::WouldBlock),
+    ("TimedOut", std::io::ErrorKind::TimedOut),
+    ("UnexpectedEof", std::io::ErrorKind::UnexpectedEof),
+    ("InvalidData", std::io::ErrorKind::InvalidData),
+    ("NotFound", std::io::ErrorKind::NotFound),
+];
+const IO_PIECES: [usize; 4] = [1, 5, 23, 1 << 20];
+
+fn io_kind(name: &str) -> std::io::ErrorKind {
+    IO_KINDS.iter().find(|(n, _)| *n == name).map(|(_, k)| *k).unwrap_or(std::io::ErrorKind::Other)
+}
+
+fn io_error_one(l: &mut Local, input: &[u8], piece: usize, fail_at: usize, kname: &str) {
+    l.tick();
+    let got = zf::parse_failing(input, piece, fail_at, io_kind(kname));
+    let (cls, viol) = check_total(input, &got);
+    l.outcome(&format!("io-error {kname}: {cls}"), || json!({"family": "io-error", "input": hex(input), "piece": piece, "fail_at": fail_at, "kind": kname}));
+    for (k, d) in viol {
+        crate::report(l, &format!("io-error:{k}"), || json!({"family": "io-error", "input": hex(input), "text": String::from_utf8_lossy(input), "piece": piece, "fail_at": fail_at, "kind": kname, "why": d}));
+    }
+}
+
 pub fn run(ctx: &'static Ctx) -> ! {
     let watch = Watch::start(ctx, "exploration", RULE);
     if let Some(case) = ctx.replay_case() {
@@ -402,6 +428,24 @@ pub fn run(ctx: &'static Ctx) -> ! {
         }
     });
 
+    // ---- transient I/O errors: every valid seed file x piece size x every
+    // read call failing once x error kind. The parser may or may not report
+    // the fault, but after its first Err it yields nothing more.
+    let io_seeds = self::seeds(true);
+    let io_cases = std::sync::atomic::AtomicU64::new(0);
+    ctx.par_for_each(&io_seeds, |l, input| {
+        for piece in IO_PIECES {
+            let calls = input.len() / piece + 3;
+            for fail_at in 0..calls {
+                for (kname, _) in IO_KINDS {
+                    io_error_one(l, input, piece, fail_at, kname);
+                    io_cases.fetch_add(1, std::sync::atomic::Ordering::Relaxed);
+                }
+            }
+        }
+    });
+    ctx.set_extra("io_error_family", json!({"files": io_seeds.len(), "piece_sizes": IO_PIECES.to_vec(), "kinds": IO_KINDS.iter().map(|k| k.0).collect::<Vec<_>>(), "cases": io_cases.load(std::sync::atomic::Ordering::Relaxed)}));
+
     // ---- large files delivered in short reads
     let tr = trickle_inputs();
     let n_sched = trickle_schedules(tr[0].1.len()).len();
@@ -423,6 +467,12 @@ pub fn run(ctx: &'static Ctx) -> ! {
 fn replay(ctx: &'static Ctx, case: Value) {
     if case["family"] == "generic" {
         generic::replay(ctx, &case, generic::Mode::Soundness);
+        return;
+    }
+    if case["family"] == "io-error" {
+        let input = unhex(case["input"].as_str().unwrap_or(""));
+        let mut l = ctx.local();
+        io_error_one(&mut l, &input, case["piece"].as_u64().unwrap_or(1) as usize, case["fail_at"].as_u64().unwrap_or(0) as usize, case["kind"].as_str().unwrap_or("Other"));
         return;
     }
     if case["family"] == "trickle" {
